@@ -235,6 +235,7 @@ func scenarios() []scen {
 	add("vproto:AP", 3, 2, 1, "full")
 	add("vproto:PX", 3, 1, 0, "full")
 	add("vproto:BA", 4, 0, 0, "full")
+	add("vproto:YN", 3, 1, 0, "full")
 	add("xor", 3, 2, 1, "full")
 	add("xor", 4, 1, 1, "full")
 	add("vproto2:3", 2, 2, 1, "full")
